@@ -14,22 +14,17 @@ Proof.
   destruct (s_obj sl) as [o|]; [|split; assumption].
   destruct (obj_process scr _ o ev) as [s2 ret] eqn:E.
   destruct (halted s2) eqn:H2; [cbn in Hh; congruence|].
-  destruct ret as [r|].
-  - destruct (apply_post _ o _ _) as [ok s5] eqn:E5.
-    pose proof (running_apply_post (set_pending (set_running s2 None) Continue) o (forget_sub_id (unpack (ev_key ev)))
-                  (match r with Continue => pending (set_running s2 None) | _ => r end)) as R5.
-    pose proof (pending_apply_post (set_pending (set_running s2 None) Continue) o (forget_sub_id (unpack (ev_key ev)))
-                  (match r with Continue => pending (set_running s2 None) | _ => r end)) as P5.
-    rewrite E5 in R5, P5. cbn in R5, P5.
-    destruct (halted s5) eqn:H5; [cbn in Hh; congruence|].
-    destruct ok; cbn [negb].
-    + cbn [fst]. split; [apply running_end_processing|]. rewrite pending_end_processing.
-      destruct (slot_vacant_for s5 _); [|exact P5].
-      destruct (disp_unregister s5 o _) as [[rs dn] sx] eqn:EU.
-      pose proof (pending_disp_unregister s5 o (forget_sub_id (unpack (ev_key ev)))) as PU. rewrite EU in PU. cbn in PU.
-      congruence.
-    + cbn [fst]. split; [apply running_end_processing|]. rewrite pending_end_processing. exact P5.
-  - cbn [fst]. split; [apply running_end_processing|]. rewrite pending_end_processing. reflexivity.
+  set (s4 := set_pending (set_running s2 None) Continue) in *.
+  set (reg := forget_sub_id (unpack (ev_key ev))) in *.
+  assert (P5 : forall x, pending (snd (match ret with None => (false, s4) | Some r => apply_post s4 o reg (x r) end)) = Continue).
+  { intros x. destruct ret as [r|]; [rewrite pending_apply_post|]; reflexivity. }
+  specialize (P5 (fun r => match r with Continue => pending (set_running s2 None) | _ => r end)). cbv beta in P5.
+  destruct (match ret with None => (false, s4) | Some r => apply_post s4 o reg _ end) as [ok s5]. cbn [snd] in P5.
+  destruct (halted s5) eqn:H5; [cbn in Hh; congruence|].
+  cbn [fst]. split; [apply running_end_processing|]. rewrite pending_end_processing.
+  destruct (slot_vacant_for s5 reg); [|exact P5].
+  destruct (disp_unregister s5 o reg) as [[rs dn] sx] eqn:EU.
+  pose proof (pending_disp_unregister s5 o reg) as PU. rewrite EU in PU. cbn in PU. congruence.
 Qed.
 
 (* an event whose processing went through (no error, no panic) leaves a running loop *)
@@ -41,10 +36,8 @@ Proof.
   destruct (s_obj sl) as [o|]; [|exact Hs].
   destruct (obj_process scr _ o ev) as [s2 ret].
   destruct (halted s2) eqn:H2; [cbn in Hok; discriminate|].
-  destruct ret as [r|]; [|cbn in Hok; discriminate].
-  destruct (apply_post _ o _ _) as [ok s5].
+  destruct (match ret with None => _ | Some r => _ end) as [ok s5].
   destruct (halted s5) eqn:H5; [cbn in Hok; discriminate|].
-  destruct ok; cbn [negb] in *; [|cbn in Hok; discriminate].
   cbn [fst]. rewrite halted_end_processing.
   destruct (slot_vacant_for s5 _); [|exact H5].
   destruct (disp_unregister s5 o _) as [[rs dn] sx] eqn:EU.
@@ -135,6 +128,9 @@ Lemma exec_cmd_quiet scr bscr s c :
   quiet s -> halted (exec_cmd scr bscr s c) = false -> quiet (exec_cmd scr bscr s c).
 Proof.
   intros Q H. unfold exec_cmd in *. destruct (halted s) eqn:Hs; [exact Q|].
+  assert (Q' : quiet (emit s (L T_CMD []))) by exact Q.
+  assert (Hs' : halted (emit s (L T_CMD [])) = false) by exact Hs.
+  revert Q' Hs' H. generalize (emit s (L T_CMD [])). clear s Q Hs. intros s Q Hs H.
   destruct c.
   - destruct Q as [Qr Qp]. split; [rewrite running_exec_action; exact Qr|rewrite pending_exec_action; assumption].
   - apply dispatch_quiet; assumption.
